@@ -386,8 +386,10 @@ theorem step_headTimerFired (cfg : Cfg) (s s' : DState) (o : List Out) (hI : Inv
     · have := inv_sendResponse cfg s none
         { status := 408, connType := none, chunked := true, headers := [] } (.sized 0) true hI
         (fun _ => ⟨rfl, by simpa [core] using he.2⟩)
+      have he' := this.early (Or.inl (by
+        simpa [core, (sendResponse_frame cfg s none _ (.sized 0) true).2.1] using hg.2))
       constructor
-      · exact this.early
+      · intro _; exact he'
       · exact this.notStarted
       · exact this.ctxExpect
       · exact this.ctxService
